@@ -148,6 +148,14 @@ Theorem C01_url_concat_variant_refuted :
   escape_path (tcp_prefix ++ "a b#c?d%") = "/_piko/v1/tcp/a%20b%23c%3Fd%25".
 Proof. exact concat_variant_refuted. Qed.
 
+(* the rendered path contains neither '?' nor '#', so the request parser's split of the target (path / query / fragment)
+   leaves it whole: the endpoint the server routes to through that split is dialled_endpoint *)
+Theorem C01_rendered_path_not_split :
+  (forall s, cut_at_query (escape_path s) = escape_path s) /\
+  (forall prefix id, match unescape_path (cut_at_query (escape_path (prefix ++ id))) with
+                     | Some path => route_param prefix path | None => None end = dialled_endpoint prefix id).
+Proof. exact (conj escaped_not_split dialled_through_parser). Qed.
+
 Print Assumptions C01_only_addressed_endpoint.
 Print Assumptions C01_settled.
 Print Assumptions C01_tcp_route.
@@ -159,3 +167,4 @@ Print Assumptions C01_url_roundtrip.
 Print Assumptions C01_dialled_only_named.
 Print Assumptions C01_dialled_is_named.
 Print Assumptions C01_url_concat_variant_refuted.
+Print Assumptions C01_rendered_path_not_split.
